@@ -196,6 +196,8 @@ func c02NormDiag(msg string) string {
 			return "unused-import:" + msg[i+1:j]
 		}
 		return "unused-import"
+	case strings.Contains(msg, "import cycle not allowed"):
+		return "import-cycle"
 	case strings.Contains(msg, "redeclared"):
 		return "redeclared"
 	case strings.Contains(msg, "undefined: unknown"):
